@@ -145,3 +145,58 @@ fire("C11", C, "    if code_data._nested:", "    if not code_data._nested:", "in
 # ---- multi-site equivalent rewrites: (file, [(old, new), ...])
 M.append(dict(kind="silent", pid=["C13", "C02"], file=B, old="    targets_set = {0}", new="    targets_set = set()",
               more=[("    targets = sorted(targets_set)", "    targets = sorted({0} | targets_set)")], why="0 added when the list is built"))
+# ---- rules added after the round-3 seeded changes: each must fire on the defect and stay silent on the sound variant
+FL = "code_data/_flags_data.py"
+fire("C01", L, "            switching_sections = line_number != section_line_number", "            switching_sections = line_number is not section_line_number", "identity of ints (R01.9)")
+fire("C01", B, "            instruction = replace(\n                instruction,\n                arg=replace(\n                    instruction.arg,\n                    target=targets.index(instruction.arg.target),\n                ),\n            )",
+     "            instruction = Instruction(\n                name=instruction.name,\n                arg=Jump(targets.index(instruction.arg.target), instruction.arg.relative),\n                _n_args_override=instruction._n_args_override,\n                line_number=instruction.line_number,\n            )", "partial rebuild (R01.8)")
+silent(["C01", "C02", "C13"], B, "            instruction = replace(\n                instruction,\n                arg=replace(\n                    instruction.arg,\n                    target=targets.index(instruction.arg.target),\n                ),\n            )",
+       "            instruction = Instruction(\n                name=instruction.name,\n                arg=Jump(targets.index(instruction.arg.target), instruction.arg.relative),\n                _n_args_override=instruction._n_args_override,\n                line_number=instruction.line_number,\n                _line_offsets_override=instruction._line_offsets_override,\n            )", "complete rebuild")
+fire("C09", B, "    found_varnames = ToArgs(varnames, {i: i for i in range(len(args.parameters))})",
+     "    n_seed = len(args.positional_only) + len(args.positional_or_keyword) + len(args.keyword_only)\n    found_varnames = ToArgs(varnames, {i: i for i in range(n_seed)})", "seed count without *args / **kwargs")
+silent(["C09", "C01"], B, "    found_varnames = ToArgs(varnames, {i: i for i in range(len(args.parameters))})",
+       "    n_seed = (\n        len(args.positional_only)\n        + len(args.positional_or_keyword)\n        + len(args.keyword_only)\n        + (1 if args.var_positional else 0)\n        + (1 if args.var_keyword is not None else 0)\n    )\n    found_varnames = ToArgs(varnames, {i: i for i in range(n_seed)})", "the same count spelled as a sum")
+M.append(dict(kind="fire", pid="C02", file=B, old="        arg |= b[i + 1]\n", new="        arg = b[i + 1] | ext\n",
+              more=[("    arg: int = 0\n    for i in range(0, len(b), 2):", "    ext: int = 0\n    for i in range(0, len(b), 2):"), ("            arg = arg << 8\n", "            ext = b[i + 1] << 8\n"),
+                    ("            if arg > _c_int_upper_limit:\n                arg -= _c_int_length\n", "            if ext > _c_int_upper_limit:\n                ext -= _c_int_length\n"),
+                    ("            n_args = 0\n            arg = 0\n", "            n_args = 0\n            ext = 0\n")], why="only the last prefix is kept (R02.7)"))
+M.append(dict(kind="silent", pid=["C02", "C13", "C01"], file=B, old="        arg |= b[i + 1]\n", new="        arg = b[i + 1] | ext\n",
+              more=[("    arg: int = 0\n    for i in range(0, len(b), 2):", "    ext: int = 0\n    for i in range(0, len(b), 2):"), ("            arg = arg << 8\n", "            ext = arg << 8\n"),
+                    ("            if arg > _c_int_upper_limit:\n                arg -= _c_int_length\n", "            if ext > _c_int_upper_limit:\n                ext -= _c_int_length\n"),
+                    ("            n_args = 0\n            arg = 0\n", "            n_args = 0\n            ext = 0\n")], why="dis-style accumulation, every prefix shifted up"))
+fire("C03", B, "            offset = len(bytes_)\n\n            line_mapping.offset_to_line[offset]", "            offset = len(bytes_) + 2\n\n            line_mapping.offset_to_line[offset]", "line not keyed at the first unit (R03.8)")
+fire("C10", L, "            if item.line_offset is not None:\n                current_line += item.line_offset\n", "            if item.line_offset is None:\n                current_line = 0\n            else:\n                current_line += item.line_offset\n", "running line reset (R10.5)")
+silent(["C10", "C02"], L, "            if item.line_offset is not None:\n                current_line += item.line_offset\n", "            if item.line_offset is not None:\n                current_line = current_line + item.line_offset\n", "same running sum")
+fire("C03", B, "    return 1 if arg <= 0xFF else 2 if arg <= 0xFFFF else 3 if arg <= 0xFFFFFF else 4", "    n = 1\n    while n < 4 and arg > (1 << (8 * n)):\n        n += 1\n    return n", "loop form, off by one at the boundaries")
+silent(["C03", "C05", "C01"], B, "    return 1 if arg <= 0xFF else 2 if arg <= 0xFFFF else 3 if arg <= 0xFFFFFF else 4", "    n = 1\n    while n < 4 and arg >= (1 << (8 * n)):\n        n += 1\n    return n", "loop form, right thresholds")
+fire("C03", B, "            isinstance(block_type, Function) and block_type.docstring is None\n", "            isinstance(block_type, Function) and block_type.type is None and block_type.docstring is None\n", "docstring pin only for plain functions")
+silent(["C04"], A, "    positional_or_keyword, varnames = (\n        varnames[:pos_or_kw_count],\n        varnames[pos_or_kw_count:],\n    )", "    positional_or_keyword, varnames = (\n        varnames[:pos_or_kw_count][-pos_or_kw_count:],\n        varnames[pos_or_kw_count:],\n    )", "x[:k][-k:] is x[:k] also for k == 0 (the slice is empty)")
+M.append(dict(kind="fire", pid="C04", file=A, old="    positional_only, varnames = (\n        varnames[:posonlyargcount],\n        varnames[posonlyargcount:],\n    )\n", new="    positional, varnames = varnames[:argcount], varnames[argcount:]\n    positional_only = positional[:posonlyargcount]\n",
+              more=[("    positional_or_keyword, varnames = (\n        varnames[:pos_or_kw_count],\n        varnames[pos_or_kw_count:],\n    )", "    positional_or_keyword = positional[-pos_or_kw_count:]")], why="x[-0:] is everything when every positional is positional-only"))
+M.append(dict(kind="silent", pid=["C04"], file=A, old="    positional_only, varnames = (\n        varnames[:posonlyargcount],\n        varnames[posonlyargcount:],\n    )\n", new="    positional, varnames = varnames[:argcount], varnames[argcount:]\n    positional_only = positional[:posonlyargcount]\n",
+              more=[("    positional_or_keyword, varnames = (\n        varnames[:pos_or_kw_count],\n        varnames[pos_or_kw_count:],\n    )", "    positional_or_keyword = positional[posonlyargcount:]")], why="same split, sound"))
+fire("C11", C, "    if code_data._nested:\n        flags_data |= {\"NESTED\"}", "    if isinstance(code_data.type, Function) and code_data._nested:\n        flags_data |= {\"NESTED\"}", "flag written back for functions only")
+fire("C05", C, "    if code_data.future_annotations:\n        flags_data |= {\"annotations\"}", "    if isinstance(code_data.type, Function) and code_data.future_annotations:\n        flags_data |= {\"annotations\"}", "future flag written back for functions only")
+M.append(dict(kind="fire", pid="C11", file=FL, old='        raise ValueError(f"Unknown flag bits: {not_covered:#x}")', new='        raise ValueError(f"Unknown flag bits: {not_covered:#x} in {_CodeFlag(flags)!r}")',
+              more=[("        if f not in _CodeFlag:\n            raise ValueError(f\"Flag {f} is not a known flag\")\n        flags_data.add(f.name)", "        if f.name is not None:\n            flags_data.add(f.name)")], why="pseudo-member registered and then accepted (R11.9)"))
+silent(["C11"], FL, '        raise ValueError(f"Unknown flag bits: {not_covered:#x}")', '        raise ValueError(f"Unknown flag bits: {not_covered:#x} in {_CodeFlag(flags)!r}")', "registration alone is harmless: unnamed members are rejected")
+fire("C06", N, "        return cast(\n            T,\n            replace(\n                x,\n                blocks=normalize(x.blocks),\n                _additional_args=(),\n                _additional_line=None,\n                _nested=False,\n            ),\n        )",
+     "        x = replace(x, blocks=normalize(x.blocks), _additional_args=(), _additional_line=None)\n        if x.type is not None:\n            x = replace(x, _nested=False)\n        return cast(T, x)", "conditional reset (R06.1)")
+silent(["C06", "C05"], N, "        return cast(\n            T,\n            replace(\n                x,\n                blocks=normalize(x.blocks),\n                _additional_args=(),\n                _additional_line=None,\n                _nested=False,\n            ),\n        )",
+       "        x = replace(x, blocks=normalize(x.blocks), _additional_args=(), _additional_line=None)\n        x = replace(x, _nested=False)\n        return cast(T, x)", "same resets in two steps")
+M.append(dict(kind="fire", pid="C07", file=J, old="from base64 import b64decode, b64encode", new="from base64 import b64decode, urlsafe_b64encode",
+              more=[('return {"bytes": b64encode(value).decode("ascii")}', 'return {"bytes": urlsafe_b64encode(value).decode("ascii")}')], why="alphabets differ (R07.1 codec pair)"))
+M.append(dict(kind="silent", pid=["C07", "C06"], file=J, old="from base64 import b64decode, b64encode", new="from base64 import b64decode, standard_b64encode",
+              more=[('return {"bytes": b64encode(value).decode("ascii")}', 'return {"bytes": standard_b64encode(value).decode("ascii")}')], why="same alphabet"))
+fire("C07", J, '        return {"frozenset": list(map(value_to_json, value))}', '        return {"frozenset": sorted(map(value_to_json, value))}', "orders dicts (R07.7)")
+fire("C07", I, "    _arg: int = field(default=0)", "    _arg: int = field(default=0, compare=False)", "hidden default of a field that does not compare (R07.4)")
+fire("C08", "code_data/_constants.py", "    if isinstance(value, CodeData):\n        return value\n", "    if isinstance(value, CodeData):\n        return (CodeData, value.name, value.filename, value.first_line_number)\n", "coarse key of nested code")
+silent(["C08", "C03"], "code_data/_constants.py", "    if isinstance(value, CodeData):\n        return value\n", "    if isinstance(value, CodeData):\n        return (CodeData, value)\n", "whole value inside a tuple")
+M.append(dict(kind="fire", pid="C15", file=J, old="from ast import literal_eval\n", new="import re\nfrom ast import literal_eval\n",
+              more=[('            return int(value["int"])', '            if not re.fullmatch(r"-?(?a)\\d+", value["int"]):\n                raise ValueError("int")\n            return int(value["int"])')], why="global flag in the middle (R15.4)"))
+M.append(dict(kind="silent", pid=["C15"], file=J, old="from ast import literal_eval\n", new="import re\nfrom ast import literal_eval\n",
+              more=[('            return int(value["int"])', '            if not re.fullmatch(r"(?a)-?\\d+", value["int"]):\n                raise ValueError("int")\n            return int(value["int"])')], why="flag at the start"))
+fire("C15", J, "                cast(float, constant_value_from_json(value[\"real\"])),", "                cast(tuple[float, float], (constant_value_from_json(value[\"real\"]), 0))[0],", "PEP 585 subscript evaluated at run time")
+fire("C16", "code_data/_cli.py", 'parser = argparse.ArgumentParser(description="Inspect Python code objects.")', 'parser = argparse.ArgumentParser(description="Inspect Python code objects.", fromfile_prefix_chars="@")', "@file expansion (R16.7)")
+silent(["C16"], "code_data/_cli.py", 'parser = argparse.ArgumentParser(description="Inspect Python code objects.")', 'parser = argparse.ArgumentParser(description="Inspect Python code objects.", epilog="See the docs.")', "presentation only")
+fire("C12", J, "    if is_dataclass(value):\n        return {", "    if isinstance(value, (Jump, Name)):\n        return vars(value)\n    if is_dataclass(value):\n        return {", "hands out the instance dictionary")
